@@ -5,10 +5,11 @@ package main
 // sets from which sources, which options it adds (in order), under which conditions.
 
 import (
-	"go/constant"
 	"encoding/json"
 	"fmt"
+	"go/constant"
 	"go/token"
+	"go/types"
 	"os"
 	"path/filepath"
 	"sort"
@@ -255,6 +256,29 @@ func (e *e6Ctx) effects(isObj func(ssa.Value) bool, depth int) ([]string, map[st
 				lines = append(lines, e.conds(b, pre)+"call "+tgt+name+"("+strings.Join(as, ", ")+")")
 			case *ssa.Return:
 				var rs []string
+				// `return f()` / `return x, err` with err the (maybe-nil) error result of a call: the same effect as
+				// `if err != nil { return zero, err }; return x, nil` — a precondition plus a success return — provided the
+				// callee hands back zero values together with its errors (or the error is all that is returned)
+				// which error a failing return carries is observable (errors.Is / == / type assertions of the caller): the
+				// callee's own error handed on, a wrapper around it (%w), a sentinel, or a new value
+				if n := len(x.Results); n > 0 && isErrorType(x.Results[n-1].Type()) && !isNilConst(x.Results[n-1]) && e.allCalls {
+					lines = append(lines, "fails with "+e.errProv(x.Results[n-1], 0))
+				}
+				if n := len(x.Results); n > 0 && isErrorType(x.Results[n-1].Type()) && !isNilConst(x.Results[n-1]) && !definitelyError(x.Results[n-1], x) {
+					if cl := errSourceCall(x.Results[n-1]); cl != nil && (n == 1 || passesThrough(x, cl)) {
+						pre[canonCond("("+e.path(x.Results[n-1])+"==const:nil:error)", true)] = true
+						for _, v := range x.Results[:n-1] {
+							if isObj(stripIface(v)) {
+								rs = append(rs, "obj")
+							} else {
+								rs = append(rs, e.path(v))
+							}
+						}
+						rs = append(rs, "nil")
+						lines = append(lines, e.conds(b, pre)+"return "+strings.Join(rs, ", "))
+						continue
+					}
+				}
 				for _, v := range x.Results {
 					if isErrorType(v.Type()) {
 						if isNilConst(v) {
@@ -277,7 +301,73 @@ func (e *e6Ctx) effects(isObj func(ssa.Value) bool, depth int) ([]string, map[st
 			}
 		}
 	}
+	// a guard that repeats a precondition says nothing: `if err == nil { log }` after the error return is the call
+	for i, l := range lines {
+		if !strings.HasPrefix(l, "[if ") {
+			continue
+		}
+		j := strings.Index(l, "] ")
+		if j < 0 {
+			continue
+		}
+		var keep []string
+		for _, cj := range strings.Split(l[4:j], " && ") {
+			if !pre[cj] {
+				keep = append(keep, cj)
+			}
+		}
+		if len(keep) == 0 {
+			lines[i] = l[j+2:]
+		} else {
+			lines[i] = "[if " + strings.Join(keep, " && ") + "] " + l[j+2:]
+		}
+	}
 	return lines, pre
+}
+
+// errSourceCall: v is the error result of a call (the call itself or an Extract of it)
+func errSourceCall(v ssa.Value) *ssa.Call {
+	if ex, ok := v.(*ssa.Extract); ok {
+		cl, _ := ex.Tuple.(*ssa.Call)
+		return cl
+	}
+	cl, _ := v.(*ssa.Call)
+	return cl
+}
+
+// passesThrough: the return hands back exactly the results of cl, in order, and cl's callee is a module function
+// whose error returns carry zero values in the other results
+func passesThrough(ret *ssa.Return, cl *ssa.Call) bool {
+	n := len(ret.Results)
+	if cl.Call.Signature().Results().Len() != n {
+		return false
+	}
+	for i, rv := range ret.Results {
+		ex, ok := rv.(*ssa.Extract)
+		if !ok || ex.Tuple != ssa.Value(cl) || ex.Index != i {
+			return false
+		}
+	}
+	g := cl.Call.StaticCallee()
+	if g == nil || !inModule(g) || g.Blocks == nil {
+		return false
+	}
+	for _, r := range returnsOf(g) {
+		if len(r.Results) != n {
+			return false
+		}
+		ev := r.Results[n-1]
+		if isNilConst(ev) {
+			continue
+		}
+		// an error (or maybe-error) return: every other result is the zero value
+		for _, ov := range r.Results[:n-1] {
+			if !isZeroConst(ov) {
+				return false
+			}
+		}
+	}
+	return true
 }
 
 func stripIface(v ssa.Value) ssa.Value {
@@ -886,4 +976,88 @@ func mergeConds(a, b string) string {
 	sort.Strings(cs)
 	cs = dedupe(cs)
 	return "[if " + strings.Join(cs, " && ") + "] "
+}
+
+// errProv: where an error value comes from, as far as a caller can tell them apart
+func (e *e6Ctx) errProv(v ssa.Value, d int) string {
+	if d > 4 {
+		return "?"
+	}
+	switch t := v.(type) {
+	case *ssa.Phi:
+		var ps []string
+		for _, ed := range t.Edges {
+			if isNilConst(ed) {
+				continue
+			}
+			ps = append(ps, e.errProv(ed, d+1))
+		}
+		sort.Strings(ps)
+		return strings.Join(dedupe(ps), "|")
+	case *ssa.Extract:
+		if cl, ok := t.Tuple.(*ssa.Call); ok {
+			return calleeShort(cl) + fmt.Sprintf("()#%d", t.Index)
+		}
+		return e.path(t)
+	case *ssa.ChangeInterface:
+		return e.errProv(t.X, d+1)
+	case *ssa.MakeInterface:
+		return "new " + typeTag(t.X.Type())
+	case *ssa.UnOp:
+		if g, ok := t.X.(*ssa.Global); ok {
+			return "global:" + g.Name()
+		}
+	case *ssa.Call:
+		if sf := t.Call.StaticCallee(); sf != nil {
+			switch funcKey(sf) {
+			case "errors.New":
+				return "new error"
+			case "fmt.Errorf":
+				if k, ok := t.Call.Args[0].(*ssa.Const); ok && k.Value != nil && k.Value.Kind() == constant.String && strings.Contains(constant.StringVal(k.Value), "%w") && len(t.Call.Args) == 2 {
+					var ws []string
+					for _, av := range varargValues(t.Call.Args[1]) {
+						if ci, isCI := av.(*ssa.ChangeInterface); isCI {
+							av = ci.X
+						}
+						if mi, isMI := av.(*ssa.MakeInterface); isMI {
+							if types.Implements(mi.X.Type(), errorIface) {
+								ws = append(ws, "new "+typeTag(mi.X.Type()))
+							}
+							continue
+						}
+						if isErrorType(av.Type()) {
+							ws = append(ws, e.errProv(av, d+1))
+						}
+					}
+					sort.Strings(ws)
+					return "wrap(" + strings.Join(ws, ",") + ")"
+				}
+				return "new error"
+			}
+		}
+		return calleeShort(t) + "()"
+	}
+	return e.path(v)
+}
+
+var errorIface = types.Universe.Lookup("error").Type().Underlying().(*types.Interface)
+
+func calleeShort(cl *ssa.Call) string {
+	if cl.Call.IsInvoke() {
+		return "." + cl.Call.Method.Name()
+	}
+	if sf := cl.Call.StaticCallee(); sf != nil {
+		for hop := 0; hop < 3; hop++ { // delegation transparency
+			inner := delegationOf(sf)
+			if inner == nil {
+				break
+			}
+			sf = inner.Call.StaticCallee()
+		}
+		if sf.Signature.Recv() != nil {
+			return "." + sf.Name()
+		}
+		return sf.Name()
+	}
+	return "?"
 }
